@@ -30,6 +30,7 @@ Lex(d, t) == CASE d = "absent" -> "none" [] d = "None" -> "cq_none"
                [] d = "code" -> "cq_code"
                [] d = "str_odd" -> (IF NeedsQuoting(t) THEN "dq_phrase" ELSE "bare_phrase")
                [] d = "str_dot" -> (IF NeedsQuoting(t) THEN "dq_dotted" ELSE "bare_dotted")
+               [] d = "str_kw" -> (IF NeedsQuoting(t) THEN "dq_keyword" ELSE "bare_keyword")
                [] d = "float_exp" -> "exp_text" [] d = "int_big" -> "big_decimal"
 \* the ideal reading of a lexical class, given the type that is known at that point ("absent" if none)
 DefFromLex(lex, t) ==
@@ -39,7 +40,7 @@ DefFromLex(lex, t) ==
     [] lex = "float_text" -> "float_pos" [] lex = "neg_float_text" -> "float_neg"
     [] lex = "True" -> "bool_T" [] lex = "False" -> "bool_F"
     [] lex \in {"dq_word", "bare_word"} -> "str" [] lex = "nothing" -> "str_empty" [] lex = "cq_code" -> "code"
-    [] lex \in {"dq_phrase", "bare_phrase"} -> "str_odd" [] lex \in {"dq_dotted", "bare_dotted"} -> "str_dot" [] lex = "exp_text" -> "float_exp" [] lex = "big_decimal" -> "int_big"
+    [] lex \in {"dq_phrase", "bare_phrase"} -> "str_odd" [] lex \in {"dq_dotted", "bare_dotted"} -> "str_dot" [] lex \in {"dq_keyword", "bare_keyword"} -> "str_kw" [] lex = "exp_text" -> "float_exp" [] lex = "big_decimal" -> "int_big"
 
 L(k, n, typ, doc, lex) == [k |-> k, n |-> n, typ |-> typ, doc |-> doc, lex |-> lex]
 Blank == L("blank", 0, "absent", "absent", "none")
